@@ -470,19 +470,20 @@ def scenarios(tier):
         ('GetWrap', 1, 0), ('GetWrap', 0, 1)],
         3 if thorough else 2))
     # an RSA pair (0 = public, 1 = private)
-    out.append(('key-pair', [('CreateKeyPair', FULL, FULL)], [
-        ('Activate', 0), ('Activate', 1), ('Revoke', 0, KC), ('Revoke', 1, SUP), ('Revoke', 1, KC), ('Destroy', 0), ('Destroy', 1),
-        ('Sign', 1, T), ('Sign', 0, T), ('SignatureVerify', 0, T), ('SignatureVerify', 1, T), ('MAC', 1, T, T),
-        ('DeriveKey', [1], FULL), ('Encrypt', 1, T)],
-        3))
+    kp = [('Activate', 0), ('Activate', 1), ('Revoke', 0, KC), ('Revoke', 1, SUP), ('Destroy', 1),
+          ('Sign', 1, T), ('Sign', 0, T), ('SignatureVerify', 0, T), ('SignatureVerify', 1, T), ('MAC', 1, T, T), ('DeriveKey', [1], FULL)]
+    if thorough:
+        kp += [('Revoke', 1, KC), ('Destroy', 0), ('Encrypt', 1, T)]
+    out.append(('key-pair', [('CreateKeyPair', FULL, FULL)], kp, 3))
     # one registered object of each stored type next to an active symmetric key
     for t in TYPES:
-        out.append(('registered-' + t, [('Register', t, FULL), ('Create', FULL), ('Activate', 1)], [
-            ('Activate', 0), ('Revoke', 0, KC), ('Revoke', 0, CA), ('Destroy', 0),
-            ('Encrypt', 0, T), ('Decrypt', 0, T), ('Sign', 0, T), ('SignatureVerify', 0, T),
-            ('MAC', 0, T, T), ('MAC', 0, False, T), ('DeriveKey', [0], FULL), ('DeriveKey', [1, 0], FULL),
-            ('GetWrap', 0, 1), ('GetWrap', 1, 0)],
-            3 if thorough and t in ('SymmetricKey', 'PrivateKey', 'OpaqueData') else 2))
+        reg = [('Activate', 0), ('Revoke', 0, KC), ('Revoke', 0, CA), ('Destroy', 0),
+               ('Encrypt', 0, T), ('Sign', 0, T), ('SignatureVerify', 0, T),
+               ('MAC', 0, T, T), ('MAC', 0, False, T), ('DeriveKey', [0], FULL), ('GetWrap', 0, 1), ('GetWrap', 1, 0)]
+        if thorough:
+            reg += [('Decrypt', 0, T), ('DeriveKey', [1, 0], FULL)]
+        out.append(('registered-' + t, [('Register', t, FULL), ('Create', FULL), ('Activate', 1)], reg,
+                    3 if thorough and t == 'PrivateKey' else 2))
     return out
 
 
@@ -522,6 +523,8 @@ def grid():
                             tests = [('GetWrap', 1, 0), ('GetWrap', 0, 0)]
                             if mclass == 'full':
                                 tests += [('GetWrap', 0, 1), ('GetWrap', 1, -1), ('GetWrap', -1, 0)]
+                        if ri > 0 or mclass in ('only', 'zero'):
+                            tests = tests[:1]
                         for tst in tests:
                             out.append(('grid', setup + [tst]))
                 # lifecycle operations after every route
@@ -594,7 +597,7 @@ def all_histories(ctx):
             hs.append((name, list(setup) + list(seq)))
     hs += grid()
     rng = ctx.subrng('histories')
-    n = 1500 if ctx.tier == 'thorough' else 160
+    n = 1000 if ctx.tier == 'thorough' else 150
     for i in range(n):
         hs.append(('random', random_history(rng, rng.randint(5, 40))))
     return hs
